@@ -606,6 +606,28 @@ def scaling(res, work, tier):
                                        path='W.java', origin='width-family', data_b64=__import__('base64').b64encode(src).decode(),
                                        how='graph.Initialize on a directory holding this file at 1x, 3x, 9x the repetitions; CPU time of the scan'))
     res.coverage['width_families'] = width
+    if tier == 'thorough':
+        # five files that need many seconds of PARSING each (one per worker) followed by ordinary files: the scan
+        # must come back, and with the ordinary files' entities
+        import qrun
+        sp = os.path.join(work, 'slowproj')
+        files = [('0slow/S%d.java' % k, ('public class S%d {\n  void before() { int q = %d + 2; }\n  /* ' % (k, k) + '/* x ' * 9000 + '\n').encode()) for k in range(5)]
+        files += [('src/Ok%d.java' % k, ('class Ok%d { int f%d(int a) { return a + %d; } }\n' % (k, k, k)).encode()) for k in range(8)]
+        qrun.write_project(sp, files)
+        t = time.time()
+        rc, out, err = run([B + '/harness', 'init-dump', sp, work + '/slowdump.txt'], timeout=1500, env=dict(ENV, HOME=work))
+        dt = round(time.time() - t, 1)
+        got = set()
+        if rc == 0:
+            for l in open(work + '/slowdump.txt'):
+                m_ = re.search(r' file=x([0-9a-f]*) ', l) if l.startswith('NODE ') else None
+                if m_:
+                    got.add(os.path.basename(bytes.fromhex(m_.group(1)).decode('utf-8', 'replace')))
+        res.coverage['slow_parse_project'] = dict(rc=rc, wall_s=dt, files_with_entities=len(got))
+        if rc != 0 or not all('Ok%d.java' % k in got for k in range(8)):
+            res.violations.append(dict(property='C09', what='scanning a project whose first five files are slow to parse %s' % ('ended abnormally (rc %d): %s' % (rc, err.decode(errors='replace')[-300:]) if rc != 0 else 'lost the entities of ordinary files'),
+                                       project='0slow/S0..S4.java = "public class Sk { void before() {...} /* " + "/* x " * 9000; src/Ok0..7.java = small classes',
+                                       how='graph.Initialize on the directory'))
     # 9x the input may cost at most ~81x (quadratic) plus slack; cubic would be 729x
     (b1, t1, _), _, (b3, t3, _) = times
     if any(rc != 0 for _, _, rc in times):
